@@ -1,6 +1,6 @@
 CONSTANTS
-  Species = {1, 2, 3}
-  NRules = 2
+  Species = {1, 2, 3, 4}
+  NRules = 1
   ProcessedOnly = FALSE
   MaxProd = 1
 SPECIFICATION MSpec
